@@ -295,6 +295,8 @@ class Interp:
                     continue
             if t[0] == 'mu' and not t[1].rsplit('::', 1)[-1] in ('push', 'extend', 'insert', 'push_back', 'push_front', 'append', 'extend_from_slice'):
                 continue   # arguments of a non-inserting mutation are not owned by the mutated object
+            if t[0] == 'agg' and ((t[1] == 'std::result::Result' and t[2] == 'v1') or (t[1] == 'std::option::Option' and t[2] == 'v0')):
+                continue   # an Err(..) built from a failed call's error, or None: mentions the call but owns no descriptor
             work.extend(children(t))
         return out
 
@@ -698,6 +700,14 @@ class Interp:
             elif all(isinstance(e, list) and e[0] in ('f', 'dc') for e in pl['p']):
                 # a field moved out of an aggregate held in a local: that part is now uninitialised
                 base = fr.locals.get(pl['l'])
+                if base is not None and VAL[base][0] == 'sym' and pl['p'][0][0] == 'dc' and pl['l'] < len(fr.body['locals']):
+                    # `move ((x as Some).0)` out of a symbolic enum value: materialise the (known) variant so that the
+                    # moved-out payload can be marked uninitialised -- x no longer owns what was moved
+                    ty = self.T[fr.body['locals'][pl['l']]['ty']]
+                    vidx = pl['p'][0][1]
+                    vs = ty.get('variants')
+                    if vs and ty.get('adt') and isinstance(vidx, int) and vidx < len(vs) and st.facts.get(('var', base)) == vidx:
+                        base = AGG(ty['adt'], vidx, self.variant_fields(st, base, vidx, len(vs[vidx]['fields'])))
                 if base is not None and VAL[base][0] == 'agg':
                     proj = tuple((e[0], e[1]) for e in pl['p'])
                     try:
@@ -967,14 +977,22 @@ class Interp:
             else:
                 excluded = ()
             isbool = self.T[t['discr_ty']]['k'] == 'bool'
+            # events are reported on a canonical condition: `a != b is false` is `a == b is true`, so rules written over
+            # equality tests see `x != K` and `!(x == K)` alike (the fact itself stays keyed on the original value)
+            tv = VAL[v]
+            flip = isbool and tv[0] == 'sym' and tv[1] == 'cmp' and tv[2] == 'Ne'
+            ev_v = SYM('cmp', 'Eq', tv[3], tv[4]) if flip else v
+
+            def bev(val):
+                return {'k': 'branch', 'val': ev_v, 'eq': (1 - val) if flip else val}
             opts = []
             for val in vals:
                 if val in excluded:
                     continue
-                opts.append((val, {'k': 'branch', 'val': v, 'eq': val}))
+                opts.append((val, bev(val)))
             rest = tuple(sorted(set(excluded) | set(vals)))
             if isbool and len(rest) == 1:
-                opts.append((1 - rest[0], {'k': 'branch', 'val': v, 'eq': 1 - rest[0]}))
+                opts.append((1 - rest[0], bev(1 - rest[0])))
             elif not (isbool and len(rest) >= 2):
                 opts.append((('not', rest), {'k': 'branch', 'val': v, 'ne': rest}))
             raise NeedFork(key, opts)
